@@ -116,6 +116,23 @@ Theorem stalled_handshake_dropped_by_handshake_timeout :
 Proof. intros hs other. reflexivity. Qed.
 Print Assumptions stalled_handshake_dropped_by_handshake_timeout.
 
+(* "a TLS handshake that does not complete within its timeout is dropped": the two stages of the handshake at the listener
+   (the ClientHello, then the rest) share one deadline, so a handshake that completes did so within the timeout, however its
+   duration is split between the stages *)
+Theorem completed_handshake_took_less_than_its_timeout :
+  forall T a b t, handshake TLS_HANDSHAKE_HAS_ONE_DEADLINE T a b = Some t -> (t = a + b /\ t < T)%N.
+Proof.
+  intros T a b t. change TLS_HANDSHAKE_HAS_ONE_DEADLINE with true. unfold handshake.
+  destruct (a <? T)%N; [|discriminate]. destruct (a + b <? T)%N eqn:E; [|discriminate].
+  intros H. inversion H; subst. split; [reflexivity|]. apply N.ltb_lt. exact E.
+Qed.
+Print Assumptions completed_handshake_took_less_than_its_timeout.
+
+(* as found (a timeout per stage): a ClientHello after 600 ms and the rest 700 ms later was accepted after 1300 ms under a
+   timeout of 1000 ms *)
+Example ex_handshake_per_stage : handshake false 1000 600 700 = Some 1300%N /\ handshake true 1000 600 700 = None.
+Proof. split; reflexivity. Qed.
+
 (* what the guarded mix-up does: under the idle timeout of established tunnels (a week by default) an
    unanswered connect is still pending long after the establishment timeout *)
 Example ex_establish_mixup : establish false 400 604800000 None = EFailed 604800000 /\ establish true 400 604800000 None = EFailed 400.
